@@ -356,3 +356,11 @@ for _pid, _ths in (("C13", ["eq_is_equality", "eq128_s4_is_equality", "source_eq
            "table is printed in lean/CC/Gen/SimdEqSrc.lean; ASSUMED: `#[derive(PartialEq)]` = field-wise `&&` in declaration order")
     if _te not in PROPS[_pid].get("trusted_extra", []):
         PROPS[_pid]["trusted_extra"] = list(PROPS[_pid].get("trusted_extra", [])) + [_te]
+
+# ---- end-to-end corollaries: statements that mention ONLY regenerated definitions (CC.Gen.*) and the published-spec definitions
+#      (the property theorem rewritten with the CC.Src.src_* equalities; no hand-written model in the statement)
+for _pid, _ths in (("C09", ["generated_encrypt_conforms"]),
+                   ("C10", ["generated_dec_enc", "generated_enc_dec"]),
+                   ("C19", ["generated_matches_meaning"]),
+                   ("C14", ["generated_refill4_eq"])):
+    PROPS[_pid]["theorems"] = list(PROPS[_pid]["theorems"]) + [t for t in _ths if t not in PROPS[_pid]["theorems"]]
